@@ -143,6 +143,22 @@ open Ex in
 example : show_ (evalUses cfg (cfg.initState inits) [⟨0, "7".toList, true⟩, ⟨1, [], true⟩])
     = some [.int 7, .flag true] := by decide
 
+/-- a long key of ONE character next to the short key of the same character (two arguments): the word
+    `--v` designates the first, `-v` the second (`fix:` for the finding one-char-long-key; on the pinned
+    code `--v` was looked up with the short key and selected the flag) -/
+example :
+    let c : Cfg := { args := [{ key := ⟨none, ['v']⟩, kind := .int, vmode := .required, card := .max 1 },
+                              { key := ⟨some 'v', []⟩, kind := .flag, vmode := .none, card := .max 1 }] }
+    Spells c none [⟨0, "5".toList, true⟩, ⟨1, [], true⟩] ["--v".toList, "5".toList, "-v".toList] ∧
+    Ex.show_ (evalUses c (c.initState [.int 0, .flag false]) [⟨0, "5".toList, true⟩, ⟨1, [], true⟩])
+      = some [.int 5, .flag true] := by
+  refine ⟨?_, by decide⟩
+  refine Spells.longVal (name := ['v']) (v := "5".toList) (k := ⟨none, ['v']⟩) (i := 0)
+    (d := { key := ⟨none, ['v']⟩, kind := .int, vmode := .required, card := .max 1 })
+    (by decide) (by decide) (by rfl) (by rfl) (by decide) (by unfold PlainWord; decide) ?_
+  exact Spells.shortFlag (c := 'v') (i := 1) (d := { key := ⟨some 'v', []⟩, kind := .flag, vmode := .none, card := .max 1 })
+    (by decide) (by rfl) (by decide) (Spells.nil _)
+
 /-! ### abbreviations: the `Resolves` side condition, declaratively -/
 
 /-- **Unambiguous abbreviations resolve** (the `Resolves` side condition of `Spells` for abbreviated
@@ -164,12 +180,15 @@ theorem C01_abbrev_resolves (cfg : Cfg) (habbr : cfg.abbr = true) (i : Nat) (d :
   obtain ⟨hjl, hje⟩ := List.getElem?_eq_some_iff.mp hj
   exact huniq j hjl (by rw [hje]; exact hp)
 
-/-- **The word behind `--` is looked up as a long key**: a typed name of two or more characters that
+/-- **The word behind `--` is looked up as a long key**: a typed name of one or more characters that
     does not begin with a dash and contains neither blank nor comma is the lookup key `⟨none, name⟩`
-    (the `Key.parse name = .ok k` side condition of the `long…` constructors of `Spells`). -/
-theorem C01_typed_name_key (name : Word) (h2 : 2 ≤ name.length) (hd : name.head? ≠ some '-')
-    (hs : ' ' ∉ name) (hc : ',' ∉ name) : Key.parse name = .ok ⟨none, name⟩ :=
-  parse_typed_name name h2 hd hs hc
+    (the `wordKey name = .ok k` side condition of the `long…` constructors of `Spells`; `wordKey` is
+    the key `Handler::evalSingleArgument` builds for the name, `Model/Keys.lean`.  Before the `fix:`
+    commit for the finding one-char-long-key this held for names of two or more characters only: a
+    one-character name was looked up as the SHORT key). -/
+theorem C01_typed_name_key (name : Word) (hne : name ≠ []) (hd : name.head? ≠ some '-')
+    (hs : ' ' ∉ name) (hc : ',' ∉ name) : wordKey name = .ok ⟨none, name⟩ :=
+  parse_typed_name name hne hd hs hc
 
 /-- non-vacuity of `C01_abbrev_resolves`: in `RulesExample.cfg` (long keys `verbose`, `num`, `out`,
     `quiet`, `list`) the typed word `--verb` designates argument 0, `--verbose`; every hypothesis is
@@ -179,8 +198,13 @@ example : Resolves RulesExample.cfg ⟨none, "verb".toList⟩ 0 RulesExample.cfg
     (by decide)
 
 /-- … and `verb` is the key that `--verb` is looked up with -/
-example : Key.parse "verb".toList = .ok ⟨none, "verb".toList⟩ :=
+example : wordKey "verb".toList = .ok ⟨none, "verb".toList⟩ :=
   C01_typed_name_key _ (by decide) (by decide) (by decide) (by decide)
+
+/-- … also for a name of one character: `--v` is looked up with the long key `v`, not with the
+    short key that `-v` is looked up with -/
+example : wordKey "v".toList = .ok ⟨none, "v".toList⟩ ∧ Key.ofChar 'v' = ⟨some 'v', []⟩ :=
+  ⟨C01_typed_name_key _ (by decide) (by decide) (by decide) (by decide), rfl⟩
 
 /-- the uniqueness hypothesis is needed: with a second long key `verbatim` the word `verb` is
     ambiguous and is refused, while `verbo` still resolves -/
